@@ -23,7 +23,10 @@ MGR = 'dht_network_manager::DhtNetworkManager'
 
 def run(ctx):
     prog = ctx.prog
-    b = prog.async_body(MGR + '::find_closest_nodes_network')
+    # the lookup body with its same-file helpers spliced in (a batch-selection or reply-handling helper changes nothing);
+    # the request sender and the routines the rules name stay calls
+    b = prog.inl(MGR + '::find_closest_nodes_network',
+                 keep=r'::(send_dht_request|mark_self_queried|find_closest_nodes_local|local_dht_node|is_local_peer_id|compare_node_distance)$')
     ctx.touch(b, len(b.calls()))
     for fn in ('find_closest_nodes', 'find_node'):
         fb = prog.async_body(MGR + '::' + fn)
@@ -36,8 +39,50 @@ def run(ctx):
         return
     h, nodes = loop
 
+    # the working sets of the lookup, identified by their role (not by their names): alias classes of locals
+    def ty_is(l, rx):
+        return re.search(rx, b.local_ty(l)) is not None
+
+    roles = {}
+    # result: what Ok(..) returns
+    best = set()
+    for bb, st in L.success_returns(b):
+        for op in st['r']['ops']:
+            if 'p' in op:
+                best |= L.alias_of(b, [op['p'][0]])
+    roles['best_nodes'] = best
+    # queried set: the set handed to mark_self_queried
+    queried = set()
+    for c in b.calls():
+        if c.callee == MGR + '::mark_self_queried' and len(c.args) > 1 and 'p' in c.args[1]:
+            queried |= L.alias_of(b, [c.args[1]['p'][0]])
+    roles['queried_nodes'] = queried
+    # candidate queue: the deque(s) of nodes popped inside the loop
+    queue = set()
+    for c in b.calls(r'VecDeque::<.*>::(pop_front|pop_back)$'):
+        if c.bb in nodes and c.args and 'p' in c.args[0]:
+            queue |= L.alias_of(b, [c.args[0]['p'][0]])
+    roles['candidates'] = queue
+    # batch: the vector the FIND_NODE requests are mapped over
+    batch = set()
+    for cs in b.calls(r'Iterator::map$|Iterator>::map$'):
+        clos = [x for x in b.expr(cs.args[1]).walk() if x.k == 'agg' and x.d == 'closure']
+        if clos and clos[0].a in prog.bodies and any(any(c.callee.endswith('::send_dht_request') for c in prog.bodies[i].calls()) for i in prog.family(clos[0].a)):
+            for l in L.expr_locals(b.expr(cs.args[0])):
+                if ty_is(l, r'Vec<.*DHTNode'):
+                    batch |= L.alias_of(b, [l])
+    roles['batch'] = batch
+    # queued set: a string set, not the queried one, that grows inside the loop
+    queued = set()
+    for c in b.calls(r'HashSet::<.*>::insert$'):
+        if c.bb in nodes and c.args and 'p' in c.args[0]:
+            cl = L.alias_of(b, [c.args[0]['p'][0]])
+            if not (cl & queried):
+                queued |= cl
+    roles['queued_peer_ids'] = queued
+
     def named(e, name):
-        return any(x.k in ('let', 'local') and x.b == name for x in e.walk())
+        return L.touches(b, e, roles.get(name, set()))
 
     pushes = b.calls(r'Vec::<.*>::push$')
     qpushes = b.calls(r'VecDeque::<.*>::push_back$')
@@ -46,7 +91,7 @@ def run(ctx):
     queue_p = [c for c in qpushes if named(b.expr(c.args[0]), 'candidates')]
 
     # ---- 1. bounded
-    kinds = L.classify_exits(b, loop, succ, ('candidates', 'candidate_nodes'))
+    kinds = L.classify_exits(b, loop, succ, (), queue_locals=roles['candidates'], batch_locals=roles['batch'], result_locals=roles['best_nodes'])
     budget = [k for k in kinds if k[0] == 'budget']
     rng_const = False
     for k, c, ln in budget:
@@ -165,7 +210,7 @@ def run(ctx):
             ctx.ob('RESULT', 'best-push#%d:seed' % i, okp, c.where(), 'outside the loop only the local node is seeded into the result: %s' % okp)
         else:
             # a clone of a batch member, on an Ok(..) reply arm
-            from_batch = _from_batch(b, c.args[1])
+            from_batch = _from_batch(b, c.args[1], roles['batch'])
             conds = F.dominating_conds(b, c.bb)
             # the innermost Result-discriminant fact about the reply (not the Poll of an await)
             ok_arm = False
@@ -203,8 +248,8 @@ def _from_call(b, op, rx):
     return any(c.dest and c.dest[0] in sl for c in b.calls(rx))
 
 
-def _from_batch(b, op):
+def _from_batch(b, op, batch):
     if 'p' not in op:
         return False
-    sl = b.backward_locals([op['p'][0]], limit=1500)
-    return any(b.local_name(l) == 'batch' for l in sl)
+    sl = b.backward_locals([op['p'][0]], limit=2500)
+    return bool(sl & batch)
